@@ -15,6 +15,9 @@ import (
 
 	"github.com/hashicorp/nodeenrollment"
 	"github.com/hashicorp/nodeenrollment/protocol"
+	"github.com/hashicorp/nodeenrollment/registration"
+	"github.com/hashicorp/nodeenrollment/rotation"
+	"github.com/hashicorp/nodeenrollment/storage/inmem"
 	nodetls "github.com/hashicorp/nodeenrollment/tls"
 	"github.com/hashicorp/nodeenrollment/types"
 	"google.golang.org/protobuf/proto"
@@ -33,6 +36,42 @@ func (s *Server) RogueDial(nodeName, kind string, opt ...nodeenrollment.Option) 
 	}
 	defer ln.Close()
 	w := s.W
+	var otherCa *x509.Certificate
+	var otherKey ed25519.PrivateKey
+	if kind == "otherDeployment" {
+		// an unrelated deployment (own roots, own node) lives in the same process; its node's credentials have been turned
+		// into client TLS configurations before this node dials
+		bctx := context.Background()
+		bSrv, _ := inmem.New(bctx)
+		bNode, _ := inmem.New(bctx)
+		broots, err := rotation.RotateRootCertificates(bctx, bSrv)
+		if err != nil {
+			return false, "other deployment: " + err.Error()
+		}
+		bcreds, err := types.NewNodeCredentials(bctx, bNode)
+		if err != nil {
+			return false, "other deployment: " + err.Error()
+		}
+		breq, _ := bcreds.CreateFetchNodeCredentialsRequest(bctx)
+		if _, err := registration.AuthorizeNode(bctx, bSrv, breq); err != nil {
+			return false, "other deployment: " + err.Error()
+		}
+		bresp, err := registration.FetchNodeCredentials(bctx, bSrv, breq)
+		if err != nil {
+			return false, "other deployment: " + err.Error()
+		}
+		if bcreds, err = bcreds.HandleFetchNodeCredentialsResponse(bctx, bNode, bresp); err != nil {
+			return false, "other deployment: " + err.Error()
+		}
+		if _, err := nodetls.ClientConfigs(bctx, bcreds); err != nil {
+			return false, "other deployment: " + err.Error()
+		}
+		ca, signer, err := broots.Current.SigningParams(bctx)
+		if err != nil {
+			return false, "other deployment: " + err.Error()
+		}
+		otherCa, otherKey = ca, signer.(ed25519.PrivateKey)
+	}
 	conf := &tls.Config{
 		MinVersion: tls.VersionTLS12,
 		ClientAuth: tls.NoClientCert, // a rogue has no reason to ask for the node's certificate
@@ -63,6 +102,8 @@ func (s *Server) RogueDial(nodeName, kind string, opt ...nodeenrollment.Option) 
 			switch kind {
 			case "foreign", "foreignNoAlpn", "foreignExtraAlpn":
 				chain = [][]byte{mint(s.Foreign.Cert, s.Foreign.Priv, x509.ExtKeyUsageServerAuth, []string{nonceName, nodeenrollment.CommonDnsName}), s.Foreign.Der}
+			case "otherDeployment":
+				chain = [][]byte{mint(otherCa, otherKey, x509.ExtKeyUsageServerAuth, []string{nonceName, nodeenrollment.CommonDnsName}), otherCa.Raw}
 			case "selfSigned":
 				tpl := &x509.Certificate{SerialNumber: big.NewInt(9), Subject: pkix.Name{CommonName: "rogue-self"}, DNSNames: []string{nonceName}, IsCA: true, BasicConstraintsValid: true,
 					ExtKeyUsage: []x509.ExtKeyUsage{x509.ExtKeyUsageServerAuth}, KeyUsage: x509.KeyUsageDigitalSignature | x509.KeyUsageCertSign, NotBefore: time.Now().Add(-time.Minute), NotAfter: time.Now().Add(time.Hour)}
